@@ -1,6 +1,7 @@
 import SkfemVerif.Drv.Base
 import SkfemVerif.Drv.BC
 import SkfemVerif.Drv.Quad
+import SkfemVerif.Drv.Asm
 /-
 Registry of driver ops contributed by the per-area files: add an import and `++ xxxOps`.
 -/
@@ -8,6 +9,6 @@ open Lean
 namespace Drv
 
 def allOps : List (String × (Json → Option Json)) :=
-  bcOps ++ quadOps
+  bcOps ++ quadOps ++ asmOps
 
 end Drv
